@@ -108,7 +108,12 @@ fn examine(prop: &str, p: &Prepared, w: &Workload, crash_at: u64, power: bool, k
     let acks = read_acks(&ackfile);
     let acked = acks.len();
     let kind = p.points.get(crash_at as usize - 1).cloned().unwrap_or_else(|| "?".into());
+    // (a close+reopen after the schema statements does not make the power-loss model hold either: the table
+    // files are still reset to bytes that recovery cannot complete, so both variants carry the same label)
     let model = if power { "power" } else { "kill" };
+    if w.ckpt_schema {
+        out = out.class(if power { "power_after_reopen" } else { "kill_after_reopen" });
+    }
     let target = if power {
         let pd = p.scratch.join(&format!("power-{}", tag));
         if let Err(e) = build_power_dir(&dbdir, &shadow, &pd) {
@@ -288,7 +293,23 @@ impl Check for CrashCheck {
     fn run(&self, case: &Case) -> Outcome {
         match prepare(&case.w) {
             Ok(p) => {
-                if case.crash_at == 0 || case.crash_at as usize > p.points.len() {
+                if case.crash_at == 0 {
+                    let mut out = Outcome::ok();
+                    let mut lo = 0u64;
+                    for (si, ok, pts, kind) in &p.acks {
+                        let range: Vec<(u64, &str)> = ((lo + 1)..=*pts).filter_map(|j| p.points.get(j as usize - 1).map(|k| (j, k.as_str()))).collect();
+                        let lf = range.iter().filter(|(_, k)| *k == "wal_frame").map(|(j, _)| *j).max();
+                        let ls = range.iter().filter(|(_, k)| *k == "wal_sync").map(|(j, _)| *j).max();
+                        if let Some(lf) = lf {
+                            if *ok && ls.map(|x| x < lf).unwrap_or(true) {
+                                out.set_fail(format!("C01|sync_before_ack|{}", kind), format!("statement [{}] wrote WAL frames that were not synced before it was acknowledged", si));
+                            }
+                        }
+                        lo = *pts;
+                    }
+                    return out;
+                }
+                if case.crash_at as usize > p.points.len() {
                     return Outcome::ok().class("crash_index_out_of_range");
                 }
                 examine(self.prop, &p, &case.w, case.crash_at, case.power, false)
@@ -314,11 +335,13 @@ fn workload_strategy(prop: &'static str, gates: Vec<String>) -> BoxedStrategy<Wo
         ..Profile::default()
     };
     let sync = if prop == "C01" { Just(2u8).boxed() } else { (0u8..3).boxed() };
-    (history_strategy(&p), sync)
-        .prop_map(move |(h, sync)| Workload {
+    let ck = if prop == "C40" { Just(false).boxed() } else { any::<bool>().boxed() };
+    (history_strategy(&p), sync, ck)
+        .prop_map(move |(h, sync, ckpt_schema)| Workload {
             setup: vec!["PRAGMA wal=ON".to_string(), format!("PRAGMA synchronous={}", ["OFF", "NORMAL", "FULL"][sync as usize])],
             h,
             closed_gates: gates.clone(),
+            ckpt_schema,
         })
         .boxed()
 }
@@ -398,6 +421,33 @@ pub fn main(prop: &'static str, tier: Tier, replay: Option<String>) -> i32 {
             }
         };
         total_points += p.points.len();
+        // C01, structural facet over the point log (no crash needed): with synchronous=FULL every WAL frame a
+        // statement wrote must be followed by a WAL sync before that statement is acknowledged
+        if prop == "C01" && w.setup.iter().any(|s| s.ends_with("=FULL")) {
+            let mut lo = 0u64;
+            for (si, ok, pts, kind) in &p.acks {
+                let range: Vec<(u64, &str)> = ((lo + 1)..=*pts).filter_map(|j| p.points.get(j as usize - 1).map(|k| (j, k.as_str()))).collect();
+                let last_frame = range.iter().filter(|(_, k)| *k == "wal_frame").map(|(j, _)| *j).max();
+                let last_sync = range.iter().filter(|(_, k)| *k == "wal_sync").map(|(j, _)| *j).max();
+                ctx.count_eval(1);
+                if let Some(lf) = last_frame {
+                    ctx.class("sync_before_ack_checked", 1);
+                    // inside an explicit transaction frames are written at COMMIT; a statement inside it writes none
+                    if *ok && last_sync.map(|ls| ls < lf).unwrap_or(true) {
+                        let f = Failure::new(
+                            format!("C01|sync_before_ack|{}", kind),
+                            format!("statement [{}] ({}) wrote WAL frames (last at point {}) but no WAL sync happened after them before it was acknowledged (point {}), although synchronous=FULL: {}", si, kind, lf, pts, p.refs.get(*si).map(|r| r.sql.chars().take(160).collect::<String>()).unwrap_or_default()),
+                        );
+                        if vcore::survey_mode() && !ctx.is_known(&f.sig) {
+                            ctx.survey_record(&f);
+                        } else {
+                            ctx.record_failure(&f, &serde_json::to_value(&Case { w: w.clone(), crash_at: 0, power: false }).unwrap());
+                        }
+                    }
+                }
+                lo = *pts;
+            }
+        }
         for (k, n) in kinds_histogram(&p.points) {
             *point_hist.entry(k).or_insert(0) += n;
         }
